@@ -1067,6 +1067,27 @@ def param_instance(name):  # noqa: F811
             n.op(opn, [y, x] if order == "k" else [x, y], [z], opts)
             return True
         return g
+    if kind == "quantizeg":
+        # QUANTIZE to another (or the same) 8/16-bit type: quantizeg.<int8|uint8|int16>.<scale index>
+        dt_out, si = parts[1], int(parts[2][1:])
+
+        def q(n):
+            x = n.cur
+            t = n.T(x)
+            if t["dtype"] not in ("int8", "uint8", "int16"):
+                return False
+            sc = [0.5, 1.0, 1.7, 0.013][si] * n.scale(x) * (256.0 if (t["dtype"] == "int16") != (dt_out == "int16") and dt_out != "int16" else 1.0) / (256.0 if dt_out == "int16" and t["dtype"] != "int16" else 1.0)
+            zp = {"int8": -3, "uint8": 121, "int16": 0}[dt_out]
+            y = n.act(t["shape"], dt_out, q=(sc, zp))
+            n.op("QUANTIZE", [x], [y], ("QuantizeOptions", {}))
+            return True
+        return q
+    if kind == "lrelug":
+        alpha = {"a0": 0.0, "a01": 0.1, "a1": 1.0, "a15": 1.5, "am02": -0.2, "a001": 0.01}[parts[1]]
+        return lambda n: _unary(n, "LEAKY_RELU", ("LeakyReluOptions", dict(Alpha=alpha)))
+    if kind == "relug":
+        opn = {"r": "RELU", "r6": "RELU6", "rn1": "RELU_N1_TO_1"}[parts[1]]
+        return lambda n: _unary(n, opn, None, "same")
     if kind == "fcg":
         return lambda n: _fc(n, int(parts[1][1:]))
     return _param_base(name)
